@@ -44,6 +44,7 @@ func init() {
 			{ID: "C07-R19", Title: "the stack pointer is advanced only after the slot was written (it always indexes the array)", Floor: 1, Run: spStaysInRange},
 			{ID: "C07-R20", Title: "a failed start leaves the VM stopped", Floor: 1, Run: failedStartLeavesVMStopped},
 			{ID: "C07-R21", Title: "options that are rejected leave the VM's globals as they were", Floor: 1, Run: rejectedOptionsAreRolledBack},
+			{ID: "C07-R22", Title: "vm.globals is the conversion of what the host supplies now (shared with C08-R6)", Floor: 2, Run: c08r6},
 		},
 	})
 }
